@@ -143,8 +143,20 @@ def run_instance(u, nm, inst, tier, keep=False):
                 defs.append(f'-D{k}={v}')
         if u.get('abort_stub', True):
             defs.append('-DUSER_ABORT(m)=verif_abort(m)')
-        incs = ['-I', os.path.join(REPO, 'SRC'), '-I', os.path.join(VERIF, 'contracts'), '-I', u['dir'],
+        incs = ['-I', work, '-I', os.path.join(REPO, 'SRC'), '-I', os.path.join(VERIF, 'contracts'), '-I', u['dir'],
                 '-I', os.path.join(VERIF, 'stubs')]
+        # 2. harness + stubs
+        hsrc = []
+        hfiles = {}
+        for h in [u['harness']] + u.get('stubs', []):
+            p = os.path.join(u['dir'], h)
+            if not os.path.exists(p):
+                p = os.path.join(VERIF, 'stubs', h)
+            txt = subst(open(p).read(), inst)
+            q = os.path.join(work, os.path.basename(h))
+            open(q, 'w').write(txt)
+            hfiles[os.path.basename(h)] = txt
+            if not q.endswith('.h'): hsrc.append(q)
         # 1. preprocess real sources
         objs = []
         specs_by_src = {}
@@ -156,7 +168,7 @@ def run_instance(u, nm, inst, tier, keep=False):
                 hp = os.path.join(u['dir'], hname)
                 if not os.path.exists(hp): hp = os.path.join(VERIF, 'specs', hname)
                 open(os.path.join(work, hname), 'w').write(subst(open(hp).read(), inst))
-            spec_text = expand_spec(spec_text, defs, work, 'main', [work, u['dir']], u.get('spec_headers', []))
+            spec_text = expand_spec(spec_text, defs, work, 'main', [work, u['dir'], os.path.join(VERIF, 'stubs')], u.get('spec_headers', []))
         specs = W.parse_spec(spec_text) if spec_text else []
         sources = [subst(s, inst) for s in ([u['source']] if isinstance(u['source'], str) else u['source'])]
         cmap = {}
@@ -187,18 +199,6 @@ def run_instance(u, nm, inst, tier, keep=False):
             objs.append(wf)
         if remaining:
             raise W.WeaveError(f'functions not found in sources: {sorted(remaining)}')
-        # 2. harness + stubs
-        hsrc = []
-        hfiles = {}
-        for h in [u['harness']] + u.get('stubs', []):
-            p = os.path.join(u['dir'], h)
-            if not os.path.exists(p):
-                p = os.path.join(VERIF, 'stubs', h)
-            txt = subst(open(p).read(), inst)
-            q = os.path.join(work, os.path.basename(h))
-            open(q, 'w').write(txt)
-            hfiles[os.path.basename(h)] = txt
-            hsrc.append(q)
         entry = subst(u['entry'], inst)
         efn = subst(u.get('enforce', ''), inst)
         res['replay_ctx'] = dict(function=efn, signature=winfo.get(efn, {}).get('signature'), inst=inst, defs=defs, entry=entry,
